@@ -567,6 +567,72 @@ def _async_cls():
 # UDP: drivers
 
 
+class _MiniStream:
+    """connected stream socket of the TCP leg of udp_with_fallback: accepts every write, delivers one
+    prepared frame (the stream machinery proper is the subject of the `stream` part)"""
+
+    def __init__(self, data):
+        self.buf = data
+        self.sent = b""
+
+    def send(self, data):
+        self.sent += bytes(data)
+        return len(data)
+
+    def sendall(self, data):
+        self.sent += bytes(data)
+
+    def recv(self, count):
+        out, self.buf = self.buf[:count], self.buf[count:]
+        return out
+
+    def fileno(self):
+        return 98
+
+    def getpeername(self):
+        return ("192.0.2.1", 53)
+
+    def close(self):
+        pass
+
+
+class _MiniAsyncStream:
+    def __init__(self, data):
+        self.buf = data
+        self.sent = b""
+
+    async def sendall(self, data, timeout):
+        self.sent += bytes(data)
+
+    async def recv(self, count, timeout):
+        out, self.buf = self.buf[:count], self.buf[count:]
+        return out
+
+    async def getpeername(self):
+        return ("192.0.2.1", 53)
+
+    async def close(self):
+        pass
+
+    async def __aenter__(self):
+        return self
+
+    async def __aexit__(self, *a):
+        pass
+
+
+def _tcp_reply(q):
+    """the answer the scripted TCP leg gives to q (input construction only)"""
+    import dns.message
+    import dns.rrset
+
+    r = dns.message.make_response(q)
+    if q.question:
+        r.answer.append(dns.rrset.from_text(q.question[0].name, 777, "IN", "TXT", '"over tcp"'))
+    w = r.to_wire()
+    return len(w).to_bytes(2, "big") + w, w
+
+
 def _udp_call(case, variant):
     """Play the script into the sync or async implementation.  Returns (obs, st)."""
     import dns.asyncquery
@@ -595,7 +661,15 @@ def _udp_call(case, variant):
                 sock = _SyncDgram(st, fam)
                 st.sock = sock
                 dns.query._wait_for = st.wait_for
-                if api == "udp":
+                if api == "udp_fb":
+                    frame, obs["tcp_wire"] = _tcp_reply(q)
+                    obs["tcp_sock"] = _MiniStream(frame)
+                    obs["result"], obs["used_tcp"] = dns.query.udp_with_fallback(
+                        q, dest["where"], timeout, dest["port"],
+                        ignore_unexpected=o["iu"], one_rr_per_rrset=o["orr"], ignore_trailing=o["it"],
+                        udp_sock=sock, tcp_sock=obs["tcp_sock"], ignore_errors=o["ie"],
+                    )
+                elif api == "udp":
                     obs["result"] = dns.query.udp(
                         q, dest["where"], timeout, dest["port"],
                         ignore_unexpected=o["iu"], one_rr_per_rrset=o["orr"],
@@ -614,7 +688,17 @@ def _udp_call(case, variant):
                 C = _async_cls()
                 sock = C["dgram"](st, fam)
                 st.sock = sock
-                if api == "udp":
+                if api == "udp_fb":
+                    frame, obs["tcp_wire"] = _tcp_reply(q)
+                    obs["tcp_sock"] = _MiniAsyncStream(frame)
+                    obs["result"], obs["used_tcp"] = _run_coro(
+                        dns.asyncquery.udp_with_fallback(
+                            q, dest["where"], timeout, dest["port"],
+                            ignore_unexpected=o["iu"], one_rr_per_rrset=o["orr"], ignore_trailing=o["it"],
+                            udp_sock=sock, tcp_sock=obs["tcp_sock"], ignore_errors=o["ie"],
+                        )
+                    )
+                elif api == "udp":
                     kw = {"sock": sock}
                     if case.get("via") == "backend":
                         be = C["backend"](sock)
@@ -778,6 +862,28 @@ def run_udp(case):
         if results["async"] != results["sync"]:
             raise Violation("differential", f"sync {results['sync']} vs async {results['async']}", "sync-async")
         classes.add("async-twin")
+    # udp_with_fallback: the same exchange with truncation asked for; a genuine truncated reply
+    # (cleanly cut or chopped mid-record) makes it retry over TCP, anything else is udp()'s outcome
+    if api == "udp" and case.get("via") != "backend" and not case.get("excluded"):
+        fb_case = dict(case, opts=dict(case["opts"], rot=True))
+        fb_model = NM.interpret_udp(case["script"], rdest, fb_case["opts"], rquery, "udp", has_deadline, case["send_expire"])
+        for variant in ("sync", "async") if case.get("run_async", True) else ("sync",):
+            obs, stt = _udp_call(dict(fb_case, api="udp_fb"), variant)
+            if fb_model["outcome"] == "Truncated":
+                if obs["outcome"] != "return":
+                    raise Violation("truncation", f"{variant} udp_with_fallback: the genuine truncated reply ({case['script'][fb_model['index']][1]}) did not lead to a TCP retry: {obs['outcome']} ({obs['exc']!r})", f"{variant}:fallback-not-taken:{obs['outcome']}")
+                import dns.message
+
+                if not obs["used_tcp"] or obs["result"].to_wire() != dns.message.from_wire(obs["tcp_wire"]).to_wire():
+                    raise Violation("truncation", f"{variant} udp_with_fallback: after a truncated reply the result is not the TCP answer (used_tcp={obs['used_tcp']})", f"{variant}:fallback-result")
+                if len(obs["tcp_sock"].sent) < 14:
+                    raise Violation("truncation", f"{variant} udp_with_fallback: nothing was sent over TCP", f"{variant}:fallback-nothing-sent")
+                classes.add("fallback-to-tcp:" + case["script"][fb_model["index"]][1])
+            else:
+                _judge_udp(fb_case, variant + "-fallback", obs, stt, fb_model, mq)
+                if obs["outcome"] == "return" and obs.get("used_tcp"):
+                    raise Violation("truncation", f"{variant} udp_with_fallback: used TCP although the UDP reply was complete", f"{variant}:fallback-spurious")
+                classes.add("fallback-not-needed")
     if case.get("excluded"):
         classes.add("excluded:" + case["excluded"])
     elif model["d19"] and not EXCLUDE_D19:
@@ -1862,7 +1968,9 @@ def _udp_require():
     req = {"__nontrivial__": 1000, "async-twin": 7000, "nontrivial-then-returned": 500,
            "would-block": 3000, "send-would-block": 1500, "send-expire": 100, "no-deadline": 2000,
            "api:udp": 6000, "api:receive_udp": 1500, "via-backend": 1000,
-           "dest_given=0": 150, "query_given=0": 200, "query-opcode-nonzero": 1500}
+           "dest_given=0": 150, "query_given=0": 200, "query-opcode-nonzero": 1500,
+           "fallback-not-needed": 2500, "fallback-to-tcp:tc_genuine": 100, "fallback-to-tcp:tc_trunc_mid_an": 80,
+           "fallback-to-tcp:tc_trunc_mid_q": 30}
     for o in ("iu", "ie", "rot", "it", "orr"):
         req[f"{o}=0"] = 3000
         req[f"{o}=1"] = 3000
